@@ -172,7 +172,7 @@ def run(ctx):
     ctx.log("exploration done: %d runs" % sum(len(j["runs"]) for j in jobs))
 
     stats = collections.Counter(); samples = []; edges = set(); same = set(); lock_hist = collections.Counter()
-    tot = collections.Counter(); recs = []; seen_sig = set()
+    tot = collections.Counter(); recs = []; seen_sig = set(); baseline = {}
     def rep_of(j, r, extra=None):
         d = {"case": j["case"]["name"], "class": j["case"]["cls"], "text": j["case"]["text"], "opts": j["opts"], "threads": j["threads"],
              "sched": (["--random", "1", "--seed", "0"] if False else j["sched"]), "mode": r["kv"].get("mode"), "seed": r["kv"].get("seed"),
@@ -222,6 +222,18 @@ def run(ctx):
                 # judged by C12 / C03, not a predicate of this property; the run has no result to judge
                 stats["ubsan-report(not judged here: C12/C03)"] += 1
                 continue
+            if st == 6:
+                # no result within the per-run time limit: schedule dependent only if the same solve with ONE thread under the
+                # default schedule finishes in time (otherwise the input is slow for every schedule: totality/time is C03's predicate)
+                bkey = (c["name"], cfgs)
+                if bkey not in baseline:
+                    ef = os.path.join(ctx.scratch, "empty.sched"); open(ef, "w").write("-\n")
+                    bj = run_job({"case": c, "opts": j["opts"], "threads": 1, "sched": ["--replay-file", ef], "run_timeout": 20}, 900000 + len(baseline),
+                                 harness, syms, worker, env, os.path.join(ctx.scratch, "jobs"), 120)
+                    baseline[bkey] = [int(x["kv"].get("status", "0")) for x in bj["runs"]]
+                if baseline[bkey] and baseline[bkey][0] == 6:
+                    stats["slow-for-every-schedule(single-thread baseline also exceeds the time limit; not judged here)"] += 1
+                    continue
             if st != 0:
                 kind = STATUS_NAME.get(st, "status%d" % st)
                 asan = (st == 5 and "exit-97" in what) or "AddressSanitizer" in j["err"]
